@@ -294,7 +294,9 @@ type verifTwo struct {
 // VerifC08Encoder: k structs written one after another through one Encoder read back as the same paragraphs:
 // every struct that has a field to write is one paragraph, in order, with its own fields (a struct with nothing
 // to write contributes nothing, and must not glue its neighbours together).
-func VerifC08Encoder(k, f int, a0, b0, a1, b1, a2, b2 string) int {
+// group: 0 one Encode call per struct; 1 the first alone, the others as one slice; 2 all as one slice;
+// 3 the first two as a slice, the third alone (k = 3).
+func VerifC08Encoder(k, f int, a0, b0, a1, b1, a2, b2 string, group int) int {
 	vals := []verifTwo{{a0, b0}, {a1, b1}, {a2, b2}}
 	var buf bytes.Buffer
 	enc, err := NewEncoder(&buf)
@@ -303,11 +305,44 @@ func VerifC08Encoder(k, f int, a0, b0, a1, b1, a2, b2 string) int {
 	}
 	want := []verifTwo{}
 	for i := 0; i < k; i++ {
-		if err := enc.Encode(&vals[i]); err != nil {
-			return 2
-		}
 		if vals[i].Aa != "" || vals[i].Bb != "" {
 			want = append(want, vals[i])
+		}
+	}
+	switch group {
+	case 0:
+		for i := 0; i < k; i++ {
+			if err := enc.Encode(&vals[i]); err != nil {
+				return 2
+			}
+		}
+	case 1:
+		if k > 0 {
+			if err := enc.Encode(&vals[0]); err != nil {
+				return 2
+			}
+			if err := enc.Encode(vals[1:k]); err != nil {
+				return 2
+			}
+		}
+	case 2:
+		if err := enc.Encode(vals[:k]); err != nil {
+			return 2
+		}
+	default:
+		if k == 3 {
+			if err := enc.Encode(vals[:2]); err != nil {
+				return 2
+			}
+			if err := enc.Encode(&vals[2]); err != nil {
+				return 2
+			}
+		} else {
+			for i := 0; i < k; i++ {
+				if err := enc.Encode(vals[i : i+1]); err != nil {
+					return 2
+				}
+			}
 		}
 	}
 	var back []verifTwo
